@@ -37,8 +37,25 @@ class Model:
         self.fns = {}
         ctors = prog.fns("vfps::ElectricField::ElectricField")
         A.require(len(ctors) == 2, "ElectricField: expected two constructors")
-        init = prog.fn("vfps::ElectricField::_initWakeLossFFT")
-        self.setup = list(ctors) + [init]
+        # construction = the constructors plus every member function that is called from construction only (set-up helpers
+        # such as _initWakeLossFFT; found from the call sites of the whole program, not by name)
+        members = {f["sig"]: f for f in prog.functions.values() if f.get("class") == "vfps::ElectricField" and f.get("body") and f.get("kind") not in ("ctor", "dtor")}
+        callers = {}
+        for f in prog.functions.values():
+            roots = ([f["body"]] if f.get("body") else []) + [i["expr"] for i in f.get("inits", []) if isinstance(i.get("expr"), dict)]
+            for r_ in roots:
+                for x in A.walk(r_):
+                    if x.get("callee_sig") in members:
+                        callers.setdefault(x["callee_sig"], set()).add(f["sig"])
+        setup = {c["sig"] for c in ctors}
+        changed = True
+        while changed:
+            changed = False
+            for sig in members:
+                if sig not in setup and callers.get(sig) and callers[sig] <= setup and members[sig]["name"] not in self.OPS:
+                    setup.add(sig); changed = True
+        self.setup = list(ctors) + [members[s_] for s_ in sorted(setup) if s_ in members]
+        A.require(any(f["name"] == "_initWakeLossFFT" for f in self.setup) or len(self.setup) >= 2, "ElectricField: set-up helpers not found")
         for f in self.setup:
             s = I.scan(f)
             for a in s.accesses:
